@@ -285,3 +285,48 @@ func hC05seqcrash(prefixIdx, layout int) {
 
 // case = prefix (4) x layout (3)
 func H_C05_seqcrash() { c := vCase(); hC05seqcrash(c%4, (c/4)%3) }
+
+// H_C05_pick: the contract of pickForCompaction on a symbolic datalog state
+// (three segments; physical ids and sequence ids in every relative order by
+// case; sizes, dead-byte and delete-record counters fully symbolic; the
+// floating-point fragmentation test is abstracted to "may or may not pass"):
+// the result is in strictly increasing sequence order, and whenever a picked
+// segment holds delete records every OLDER segment (by sequence id) is picked
+// too - otherwise compaction would drop a delete marker while an older segment
+// still holds the put it cancels.
+func H_C05_pick() {
+	perms := [][3]uint64{{1, 2, 3}, {1, 3, 2}, {2, 1, 3}, {2, 3, 1}, {3, 1, 2}, {3, 2, 1}}
+	seqs := perms[vCase()%6]
+	db := &DB{opts: &Options{compactionMinSegmentSize: 1024, compactionMinFragmentation: 0.5}, datalog: &datalog{}}
+	var segs [3]*segment
+	for id := 0; id < 3; id++ {
+		sz := vU32("size")
+		vAssume(sz >= 512 && sz < 1<<20)
+		segs[id] = &segment{file: &file{size: int64(sz)}, id: uint16(id), sequenceID: seqs[id],
+			meta: &segmentMeta{DeletedBytes: vU32("deletedBytes"), DeleteRecords: vU32("deleteRecords"), Full: true}}
+		db.datalog.segments[id] = segs[id]
+	}
+	picked := db.pickForCompaction()
+	in := func(s *segment) bool {
+		for _, p := range picked {
+			if p == s {
+				return true
+			}
+		}
+		return false
+	}
+	for i := 1; i < len(picked); i++ {
+		vAssert(picked[i-1].sequenceID < picked[i].sequenceID, "C05.pick.oldest-first-no-duplicates")
+	}
+	for _, p := range picked {
+		if p.meta.DeleteRecords > 0 {
+			vCover("C05.pick.segment-with-delete-records-picked")
+			for _, o := range segs {
+				if o.sequenceID < p.sequenceID {
+					vAssert(in(o), "C05.pick.all-older-segments-go-with-a-segment-holding-delete-records")
+				}
+			}
+		}
+	}
+	vCover("C05.pick.done")
+}
